@@ -114,7 +114,7 @@ def extra(report, env):
                 fails.append({'formula': 'LARGE(%r,%d)' % (xs, bad), 'detail': 'got %r' % (r,)})
         # criteria functions over exactly the selected items
         crit_cells = [rng.choice([rng.randint(-5, 5), round(rng.uniform(-5, 5), 1)]) for _ in range(n)]
-        words = [rng.choice(['apple', 'apricot', 'banana', 'cherry', 'avocado', 'fig', '']) for _ in range(n)]
+        words = [rng.choice(['apple', 'apples', 'apricot', 'banana', 'bananas', 'cherry', 'avocado', 'fig', 'figs', 'xfig', '']) for _ in range(n)]
         p.set_variable('cs', crit_cells)
         p.set_variable('ws', words)
         t = rng.randint(-3, 3)
@@ -136,7 +136,7 @@ def extra(report, env):
                 if not ok and len(fails) < 5:
                     fails.append({'formula': '%s with xs=%r cs=%r' % (text, xs, crit_cells), 'detail': 'expected %s got %r' % (float(mean(sel)) if sel else 'an error', r)})
         import fnmatch
-        for pat in ('a*', '?ig', '*an*', 'apple'):
+        for pat in ('a*', '?ig', '*an*', 'apple', 'appl?', '*ana', 'fi?', 'b*a'):
             cnt = sum(1 for w_ in words if (fnmatch.fnmatch(w_, pat) if ('*' in pat or '?' in pat) else w_ == pat))
             cases += 1
             r = p.parse('COUNTIF(ws,"%s")' % pat)
